@@ -102,7 +102,8 @@ func init() {
 	// an arbitrary TestingT it may)
 	extSchemas[assertPkg+"FailNowf"] = func(x *Exec, st *State, fn *ssa.Function, args []Val, c *ssa.CallCommon) Val {
 		needInt(x)
-		return x.reportIfNot(st, x.o.False())
+		x.reportIfNot(st, x.o.False()) // Errorf
+		return x.reportIfNot(st, x.o.False()) // FailNow
 	}
 	// assert.Nil(t, object): holds iff object is the nil interface or holds a nil pointer / slice / func / map / chan
 	extSchemas[assertPkg+"Nil"] = func(x *Exec, st *State, fn *ssa.Function, args []Val, c *ssa.CallCommon) Val {
